@@ -2,11 +2,12 @@ import Driver.OpsBits
 import Driver.OpsSignal
 import Driver.OpsSocketcan
 import Driver.OpsFrameText
+import Driver.OpsNetlink
 /- `canmodel`: reads one operation per line on stdin, prints `model<TAB>spec` per line. -/
 open Driver
 
 def dispatch (ws : List String) : String :=
-  let groups : List (List String → Option (String × String)) := [opsBits, opsSignal, opsSocketcan, opsFrameText]
+  let groups : List (List String → Option (String × String)) := [opsBits, opsSignal, opsSocketcan, opsFrameText, opsNetlink]
   match groups.findSome? (fun g => g ws) with
   | some (m, s) => m ++ "\t" ++ s
   | none => "bad-op\t-"
